@@ -380,6 +380,10 @@ class Analyzer:
                 inner = p["inner"]
                 if inner[4] is child and inner[2] and inner[2].get("kind"):
                     facts.append((ex(inner[2]), True, inner[2]))
+            if k == "WhileStmt":
+                inner = p["inner"]
+                if len(inner) == 2 and inner[1] is child and inner[0].get("kind"):
+                    facts.append((ex(inner[0]), True, inner[0]))
             child, p = p, p.get("_p")
         return facts
 
@@ -819,9 +823,32 @@ class Analyzer:
         """A pop dominated by a negative emptiness test (no other pop in between) yields a pixel, not the marker."""
         if r.is_bottom() or not r.extra:
             return r
+        # the cursor whose address this pop receives:  fifo_first(iq, &iq_start)
+        cursor = None
+
+        def find(t):
+            nonlocal cursor
+            if not isinstance(t, tuple):
+                return
+            if t and t[0] == "call" and show(t[1]) == "fifo_first":
+                for a_ in t[2]:
+                    if isinstance(a_, tuple) and a_[0] == "un" and a_[1] == "&" and a_[2][0] == "var":
+                        cursor = a_[2][1]
+            for x in t:
+                find(x)
+        find(ex(node))
         for cond, truth, cnode in self.facts_at(node):
             for c, tr in self._atoms(cond, truth):
-                if c[0] == "call" and show(c[1]) == "fifo_empty" and not tr:
+                inline_empty = c[0] == "bin" and c[1] in ("==", "!=") and c[2][0] == "var" and c[3][0] == "var" and cursor is not None and cursor in (c[2][1], c[3][1]) \
+                    and ((c[1] == "==" and not tr) or (c[1] == "!=" and tr))
+                if inline_empty:
+                    # the other operand must be the write cursor: every assignment to it is 0 or a fifo_add result
+                    other_v = c[3] if c[2][1] == cursor else c[2]
+                    key_ = self._varkey(fn, other_v)
+                    asg = self.assigns.get(key_, []) if key_ is not None else []
+                    inline_empty = bool(asg) and all(
+                        rhs_ == ("int", 0) or (rhs_[0] == "call" and show(rhs_[1]) == "fifo_add") for _n, rhs_, _f in asg)
+                if (c[0] == "call" and show(c[1]) == "fifo_empty" and not tr) or inline_empty:
                     lo, hi = self.cf._off(cnode["range"]["end"]), self.cf._off(node["range"]["begin"])
                     other = False
                     for n in self.cf.walk(self.cf.func(fn)):
